@@ -503,13 +503,12 @@ func (ex *Exec) makeIter(st *State, v Value) Value {
 		it := &MapIter{}
 		if x.Obj != 0 {
 			for _, e := range ex.mapObj(st, x).E {
-				if e.Present.Op != OConst {
-					unsupported("range over map with symbolic key presence")
+				if e.Present.Op == OConst && e.Present.C == 0 {
+					continue
 				}
-				if e.Present.C != 0 {
-					it.Keys = append(it.Keys, e.K)
-					it.Vals = append(it.Vals, e.V)
-				}
+				it.Keys = append(it.Keys, e.K)
+				it.Vals = append(it.Vals, e.V)
+				it.Pres = append(it.Pres, e.Present)
 			}
 		}
 		return it
